@@ -65,3 +65,22 @@ Definition bad_trace : list (directive * list obs) :=
     (DExec [], [OExec [[AcquireLock "r" "e2" "p" 5 6]] (Some [[RAlter 1]]) (mkDb [] [] [] [mkL "r" "e2" "p" 5 6] [] 0 0 0)]) ].
 Example C09_monitor_detects : C09_mon bad_trace = [(902, 2%nat)].
 Proof. vm_compute. reflexivity. Qed.
+
+(* The FULL property ("the holder keeps the lock until ... its lease (last acquire time plus ttl) has run out") is FALSE
+   of the faithful model for one input shape: a ttl so large that time + ttl does not fit 64 bits (DESIGN D13, recorded
+   in known_findings.json; the same requests fail on the implementation).  e1 acquires r for 2^63-1 ms at time 1000;
+   the stored lease end is negative; the sweep at 1001 removes the lock; e2 acquires r at 1002. *)
+Definition sch_d13 : list directive :=
+  [ DTick 1000 [] [] [("a"%string, QAcquireLock "r" "e1" "p" 9223372036854775807)];
+    DExec [mkEx "a" 0 [] false];
+    DTick 1001 [("a"%string, 0%nat)] [("TimeoutLocks:1001"%string, BTimeoutLocks)] [];
+    DExec [mkEx "TimeoutLocks:1001" 0 [] false];
+    DTick 1002 [("TimeoutLocks:1001"%string, 0%nat)] [] [("b"%string, QAcquireLock "r" "e2" "p" 5)];
+    DExec [mkEx "b" 0 [] false];
+    DTick 1003 [("b"%string, 0%nat)] [] [] ].
+Theorem C09_lease_refuted : exists cfg sch, sch_wf sch /\ C09w_mon (events cfg sch) <> [] /\
+    (* and the consequence: both acquires are answered 201 within two milliseconds *)
+    flat_map (fun e => flat_map (fun o => match o with OInst id _ (Some r) => [(id, status_of r)] | _ => [] end) (snd e)) (events cfg sch)
+    = [("a"%string, 20100); ("b"%string, 20100)].
+Proof. exists cfg_ex, sch_d13. split; [repeat constructor|]. vm_compute. split; [discriminate|reflexivity]. Qed.
+Print Assumptions C09_lease_refuted.
